@@ -1,6 +1,6 @@
 CONSTANTS
   Ids = {3, 7}
-  Coords = {0, 15, 204, 1000}
+  Coords = {0, 15, 204, 1005}
   Ends = {1009, 5000}
   MaxLabels = 2
 INIT Init
